@@ -38,10 +38,23 @@ def options(s2s=False, **kw):
     return o
 
 
-def scenario(name, catalog, pools, nodes, pods, steps, tags, s2s=False, pdbs=None, **optkw):
+def scenario(name, catalog, pools, nodes, pods, steps, tags, s2s=False, pdbs=None, daemonsets=None, **optkw):
     sc = dc.scenario(name, pools, nodes, pods, pdbs or [], steps, tags, options=options(s2s, **optkw))
     sc["catalog"] = catalog
+    if daemonsets:
+        sc["daemonsets"] = daemonsets
     return sc
+
+
+def with_daemonset(nodes, pods, name="agent", cpu=300, sel=None):
+    """A DaemonSet whose pod already runs on every node that exists (and will run on the replacement)."""
+    ds = {"name": name, "cpu": cpu, "memMi": 32}
+    if sel:
+        ds["sel"] = sel
+    for n in nodes:
+        if n.get("stage", "initialized") != "launched" and not n.get("nodeGone"):
+            pods.append(dc.pod("%s-%s" % (name, n["name"]), n["name"], cpu=cpu, owner="daemonset", ds=name, memMi=32))
+    return ds
 
 
 # ------------------------------------------------------------------ the model's grid
@@ -209,6 +222,21 @@ def directed(rng):
         out.append(scenario("no-spot:" + mode, cat, [dc.pool("pa")], nodes, pods,
                             [{"a": "Method", "method": "single"}, {"a": "Round"}],
                             {"kind": "directed", "case": "no-spot-" + mode}))
+    # K: daemon overhead: the replacement must hold the pods AND the DaemonSet pod that will run there (tight fits)
+    for podcpu, dscpu in ((1500, 400), (1700, 400), (1900, 200), (3500, 600), (900, 1200)):
+        nodes = [dc.node("c1", "pa", "t3")]
+        pods = [dc.pod("p1", "c1", cpu=podcpu)]
+        ds = with_daemonset(nodes, pods, cpu=dscpu)
+        out.append(scenario("daemon:%d+%d" % (podcpu, dscpu), default_catalog(), [dc.pool("pa")], nodes, pods,
+                            [{"a": "Method", "method": "single"}, {"a": "Round"}],
+                            {"kind": "directed", "case": "daemon-overhead"}, daemonsets=[ds]))
+    for free in (300, 700):      # ... and the remaining node already runs its DaemonSet pod: no second reservation there
+        nodes = [dc.node("c1", "pa", "t3"), dc.node("r", "pr", "t2")]
+        pods = [dc.pod("p1", "c1", cpu=600), dc.pod("fill", "r", cpu=4000 - 400 - free, dnd="true")]
+        ds = with_daemonset(nodes, pods, cpu=400)
+        out.append(scenario("daemon-dest:%d" % free, default_catalog(), [dc.pool("pa"), dc.pool("pr")], nodes, pods,
+                            [{"a": "Method", "method": "single"}, {"a": "Round"}],
+                            {"kind": "directed", "case": "daemon-dest"}, daemonsets=[ds]))
     # D: the pod on the removed node disappears while the command waits (witness mentions a pod that is gone)
     nodes = [dc.node("c1", "pa", "t3")]
     pods = [dc.pod("p1", "c1", cpu=1500), dc.pod("p1b", "c1", cpu=300)]
@@ -339,13 +367,16 @@ def explore(rng, n, tag="explore"):
             t = rng.choice(cat)
             o = rng.choice(t["offerings"])
             nodes.append(dc.node("fresh", "pr", t["name"], zone=o["zone"], ct=o["ct"], stage=rng.choice(["registered", "launched"])))
+        daemonsets = []
+        if rng.random() < 0.3:
+            daemonsets.append(with_daemonset(nodes, pods, cpu=rng.choice([100, 300, 600])))
         methods = ["multi", "single", "emptiness"]
         rng.shuffle(methods)
         steps = [{"a": "Method", "method": m} for m in methods] + [{"a": "Round"}]
         if rng.random() < 0.3:
             steps.append({"a": "Round"})
         tags = {"kind": tag, "idx": k, "profile": profile, "ntypes": ntypes, "flag": s2s, "policy": policy}
-        out.append(scenario("%s:%d" % (tag, k), cat, pools, nodes, pods, steps, tags, s2s=s2s,
+        out.append(scenario("%s:%d" % (tag, k), cat, pools, nodes, pods, steps, tags, s2s=s2s, daemonsets=daemonsets,
                             minValuesPolicy=rng.choice(["", "", "BestEffort"])))
     return out
 
